@@ -313,6 +313,7 @@ func calls(i lib.I, x int) {
 	_ = lib.Fn(nil)
 	_ = lib.T(t)
 	_ = len("x") + len([]int{1})
+	_ = -1 + +2 - (-3)
 	_ = append([]int(nil), 1)
 	_ = fmt.Sprintf("%d", lib.F(x))
 	var buf bytes.Buffer
